@@ -305,8 +305,31 @@ func checkRefsFor(p *Program, r *Report) {
 		fk := funcKey(f)
 		cfg := &simCfg{Event: map[string]bool{"method:(iterator).Next": true, "(*blockIter).Next": true, "method:(Table).SeekRef": true, "(*Iterator).NextRef": true, "(*indexedTableRefIter).nextBlock": true},
 			Pure: map[string]bool{"bytes.Compare": true, "bytes.Equal": true}, Opaque: map[string]bool{"fmt.Errorf": true, "newRecord": true}}
-		c, _ := runSim(p, f, cfg, nil)
+		c, xsim := runSim(p, f, cfg, nil)
+		recParam := mk("param", fk+"."+f.Params[1].Name(), f.Params[1].Type())
 		cmpAtoms := func(s simSample) (val, tgt *Term) {
+			// prefer the comparisons made on the record as it is at the end of the
+			// path (with nested loops several generations of comparisons exist)
+			st2 := s.St.clone()
+			curV := xsim.load(st2, mk("field", "RefRecord.Value", nil, recParam), nil)
+			curT := xsim.load(st2, mk("field", "RefRecord.TargetValue", nil, recParam), nil)
+			for _, k := range sortedFactKeys(s.St) {
+				s.St.fterm[k].walk(func(u *Term) {
+					if u.Op == "pcall" && (u.Aux == "bytes.Compare" || u.Aux == "bytes.Equal") {
+						for _, a := range u.Args {
+							if a == curV && val == nil {
+								val = u
+							}
+							if a == curT && tgt == nil {
+								tgt = u
+							}
+						}
+					}
+				})
+			}
+			if val != nil || tgt != nil {
+				return
+			}
 			// the comparisons of the current iteration (facts about earlier
 			// iterations carry the loop's summary mark); deterministic choice
 			var keys []string
@@ -429,10 +452,9 @@ func checkRefsFor(p *Program, r *Report) {
 	{
 		f := p.MustFunc("(*Reader).refsForIndexed")
 		cfg := &simCfg{
-			Event:           map[string]bool{"(*Reader).seek": true, "(*tableIter).Next": true, "(*Reader).newBlockReader": true, "(*Reader).refsForLinear": true},
-			Pure:            map[string]bool{"(*objRecord).key": true},
-			Inline:          map[string]bool{"(*indexedTableRefIter).nextBlock": true, "(*blockReader).start": true},
-			NoInlineDefault: true,
+			Event:  map[string]bool{"(*Reader).seek": true, "(*tableIter).Next": true, "(*Reader).newBlockReader": true, "(*Reader).refsForLinear": true},
+			Pure:   map[string]bool{"(*objRecord).key": true},
+			Opaque: map[string]bool{"fmt.Errorf": true, "newRecord": true},
 		}
 		c, _ := runSim(p, f, cfg, nil)
 		n := 0
@@ -449,7 +471,16 @@ func checkRefsFor(p *Program, r *Report) {
 				continue
 			}
 			n++
-			br, has := s.St.mem[mk("field", "blockIter.br", nil, mk("field", "indexedTableRefIter.cur", nil, tr)).key]
+			// the embedded block iterator: the field of type blockIter
+			curField := "indexedTableRefIter.cur"
+			if ist, ok := p.namedType("indexedTableRefIter").Underlying().(*types.Struct); ok {
+				for i := 0; i < ist.NumFields(); i++ {
+					if n, ok := ist.Field(i).Type().(*types.Named); ok && n.Obj().Name() == "blockIter" {
+						curField = "indexedTableRefIter." + ist.Field(i).Name()
+					}
+				}
+			}
+			br, has := s.St.mem[mk("field", "blockIter.br", nil, mk("field", curField, nil, tr)).key]
 			key := "(*Reader).refsForIndexed / iterator handed out is positioned on a block"
 			if !has || br.val.isNilConst() || s.St.truth(tEq(br.val, tNil)) == 1 {
 				r.violate("ITER-POSITIONED", key, p.pos(f.Pos()), "the indexed RefsFor iterator can be returned without its block iterator positioned on a block (empty position list): its first Next dereferences a nil block reader", witnessOf(p, s.St.trace))
@@ -465,7 +496,7 @@ func checkRefsFor(p *Program, r *Report) {
 		f := p.MustFunc("(*Reader).refsForIndexed")
 		cfg := &simCfg{
 			Event:  map[string]bool{"(*Reader).seek": true, "(*tableIter).Next": true, "(*Reader).newBlockReader": true, "(*Reader).refsForLinear": true},
-			Pure:   map[string]bool{"(*objRecord).key": true},
+			Pure:   map[string]bool{"(*objRecord).key": true, "bytes.Equal": true, "bytes.Compare": true},
 			Opaque: map[string]bool{"(*indexedTableRefIter).nextBlock": true, "fmt.Errorf": true},
 		}
 		c, _ := runSim(p, f, cfg, nil)
@@ -484,6 +515,17 @@ func checkRefsFor(p *Program, r *Report) {
 				if v && t != nil && t.Op == "eq" && len(t.Args) == 2 && t.Args[0].Op == "pcall" && t.Args[1].Op == "pcall" &&
 					t.Args[0].Aux == "(*objRecord).key" && t.Args[1].Aux == "(*objRecord).key" {
 					found = true
+				}
+				// the same comparison on the hash prefixes themselves
+				if v && t != nil && t.Op == "pcall" && t.Aux == "bytes.Equal" && strings.Contains(t.key, "objRecord.HashPrefix") {
+					found = true
+				}
+				if !v && t != nil && t.Op == "eq" && len(t.Args) == 2 {
+					for i := 0; i < 2; i++ {
+						if c, ok := termInt(t.Args[i]); ok && c == 0 && t.Args[1-i].Op == "pcall" && t.Args[1-i].Aux == "bytes.Compare" && strings.Contains(t.Args[1-i].key, "objRecord.HashPrefix") {
+							_ = c // Compare(...) != 0 is "not found"
+						}
+					}
 				}
 			}
 			if os.Getenv("RSA_DEBUG") == "15" {
